@@ -90,6 +90,13 @@ def dropOffTrip (w : World) (v : VehicleId) (req : Request) : Outcome World :=
     if req.passengers > 0 && req.dest.cell != veh.pos.cell then .error
     else .ok { w with log := w.log ++ [Event.dropoff v req.id] }
 
+/-- `ChargeQueueing.enter`: an installed plug type must be usable by the vehicle
+    (an uninstalled type, or an unregistered mechatronics, is let through as in the Python) -/
+def queuePlugUsable (veh : Vehicle) (st : Station) (cid : ChargerId) : Bool :=
+  match st.plug? cid with
+  | some cs => !env.mechKnown veh.mech || env.validCharger veh cs
+  | none => true
+
 /-- `enter` of each activity, on `w.sim`, for vehicle `v` -/
 def enter (w : World) (v : VehicleId) : Act → Outcome World
   | .idle d => do let s ← applyAct env w.sim v (.idle d); pure { w with sim := s }
@@ -166,6 +173,7 @@ def enter (w : World) (v : VehicleId) : Act → Outcome World
       if veh.pos.cell != st.pos.cell then .rejected
       else if st.hasAvailable cid then .rejected
       else if !st.members.grants veh.members then .error
+      else if !queuePlugUsable env veh st cid then .error
       else do
         let st' ← st.enqueue cid
         let s1 ← w.sim.modifyStation env st'
